@@ -303,7 +303,7 @@ class Run:
                 if key not in [x[0] for x in self.known_seen]:
                     self.known_seen.append((key, k['description']))
                 return False
-        if len(self.violations) < 20:
+        if len(self.violations) < 5 and key not in [v[0] for v in self.violations]:
             self.violations.append((key, description, payload))
         else:
             self.count('violations_not_recorded')
@@ -316,6 +316,10 @@ class Run:
             print('KNOWN-FINDING: property=%s %s' % (self.prop, desc))
         rc = 0
         rdir = os.path.join(VERIF, 'replays', self.prop)
+        if os.path.isdir(rdir):
+            for fn in os.listdir(rdir):
+                if fn.startswith('%s_%d_' % (self.tier, self.seed)):
+                    os.remove(os.path.join(rdir, fn))
         for i, (key, desc, payload) in enumerate(self.violations):
             os.makedirs(rdir, exist_ok=True)
             path = os.path.join(rdir, '%s_%d_%d.json' % (self.tier, self.seed, i))
